@@ -1,0 +1,62 @@
+//go:build verif
+
+package pipeline
+
+import "time"
+
+// Exported wrappers of the two event pools for the verification harness
+// (/verif/harness/pooldrv, properties C05 / C04). Add-only.
+
+// VerifPool is the harness' view of either pool kind.
+type VerifPool interface {
+	Get(size int) *Event
+	Back(e *Event)
+	InUse() int64      // the pool's own inUse()
+	RawInUse() int64   // the raw counter
+	Waiters() int64
+	Capacity() int
+	Stop()
+	Broadcast()        // harness rescue of goroutines that would otherwise stay blocked
+	Obj() any          // the pointer the trace labels carry
+}
+
+type verifStdPool struct{ p *eventPool }
+type verifLmPool struct{ p *lowMemoryEventPool }
+
+// VerifNewEventPool builds the standard pool; its event objects are numbered 0..capacity-1
+// through SeqID (which the pool never touches), slot i holding object i.
+func VerifNewEventPool(capacity, avgEventSize int, wakeup time.Duration) VerifPool {
+	p := newEventPool(capacity, avgEventSize)
+	p.wakeupInterval = wakeup
+	for i, e := range p.events {
+		e.SeqID = uint64(i)
+	}
+	return verifStdPool{p}
+}
+
+// VerifNewLowMemoryEventPool builds the low-memory pool.
+func VerifNewLowMemoryEventPool(capacity int, wakeup time.Duration) VerifPool {
+	p := newLowMemoryEventPool(capacity)
+	p.wakeupInterval = wakeup
+	return verifLmPool{p}
+}
+
+func (v verifStdPool) Get(size int) *Event { return v.p.get(size) }
+func (v verifStdPool) Back(e *Event)       { v.p.back(e) }
+func (v verifStdPool) InUse() int64        { return v.p.inUse() }
+func (v verifStdPool) RawInUse() int64     { return v.p.inUseEvents.Load() }
+func (v verifStdPool) Waiters() int64      { return v.p.waiters() }
+func (v verifStdPool) Capacity() int       { return v.p.capacity }
+func (v verifStdPool) Stop()               { v.p.stop() }
+func (v verifStdPool) Broadcast()          { v.p.getCond.Broadcast() }
+func (v verifStdPool) Obj() any            { return v.p }
+
+func (v verifLmPool) Get(size int) *Event { return v.p.get(size) }
+func (v verifLmPool) Back(e *Event)       { v.p.back(e) }
+func (v verifLmPool) InUse() int64        { return v.p.inUse() }
+func (v verifLmPool) RawInUse() int64     { return v.p.inUseEvents.Load() }
+func (v verifLmPool) Waiters() int64      { return v.p.waiters() }
+func (v verifLmPool) Capacity() int       { return v.p.capacity }
+func (v verifLmPool) Stop()               { v.p.stop() }
+func (v verifLmPool) Broadcast()          { v.p.getCond.Broadcast() }
+func (v verifLmPool) Obj() any            { return v.p }
